@@ -147,15 +147,22 @@ impl Options {
 
     /// Get an upper bound on the required buffer size.
     ///
-    /// This is always [`FORMATTED_SIZE`][FormattedSize::FORMATTED_SIZE]
+    /// This is [`FORMATTED_SIZE`][FormattedSize::FORMATTED_SIZE]
     /// or [`FORMATTED_SIZE_DECIMAL`][FormattedSize::FORMATTED_SIZE_DECIMAL],
-    /// depending on the radix.
+    /// depending on the radix, plus 1 if the format requires a sign, since
+    /// the formatted size of an unsigned integer has no room for a `+`.
     #[inline(always)]
     pub const fn buffer_size_const<T: FormattedSize, const FORMAT: u128>(&self) -> usize {
-        if (NumberFormat::<FORMAT> {}.radix()) == 10 {
+        let format = NumberFormat::<FORMAT> {};
+        let size = if format.radix() == 10 {
             T::FORMATTED_SIZE_DECIMAL
         } else {
             T::FORMATTED_SIZE
+        };
+        if cfg!(feature = "format") && format.required_mantissa_sign() {
+            size + 1
+        } else {
+            size
         }
     }
 
